@@ -205,7 +205,23 @@ def evaluate(ctx, base, hists, which):
     return nm, nf
 
 
+def _cls(st):
+    e = st["errno"] if st["rt"] == 7 else "ok"
+    return (st["req"]["t"], str(e), tuple(c["m"] for c in st["calls"]),
+            tuple(bool(c["ans"]["e"]) or c["ans"]["p"] for c in st["calls"]))
+
+
+def _trivial(cls):
+    """a class is trivial when nothing reached the backend and the reply is EBADF (unbound fid) or success
+    (Tversion/Tflush-like requests that involve neither the fid table nor the backend)"""
+    t, e, calls, _ = cls
+    return not calls and e in ("9", "ok")
+
+
 def stats(hists):
+    """distribution + distinct_nontrivial.  RULE: steps are classified by (request type, reply class = ok|errno,
+    ordered list of backend methods called, per-call error/panic flags); distinct_nontrivial counts the classes
+    in which a backend call was made or the request was refused with an errno other than EBADF."""
     kinds, errnos, meths = {}, {}, {}
     steps = calls = faults = 0
     distinct = set()
@@ -221,6 +237,34 @@ def stats(hists):
                 meths[METH[c["m"]]] = meths.get(METH[c["m"]], 0) + 1
                 if c["ans"]["p"] or c["ans"]["e"]:
                     faults += 1
-            distinct.add((t, str(e), tuple(c["m"] for c in st["calls"]), tuple(bool(c["ans"]["e"]) or c["ans"]["p"] for c in st["calls"])))
+            distinct.add(_cls(st))
+    nontrivial = [c for c in distinct if not _trivial(c)]
     return {"histories": len(hists), "steps": steps, "backend_calls": calls, "calls_answered_with_error_or_panic": faults,
-            "requests_by_type": kinds, "replies_by_errno": errnos, "calls_by_method": meths}, len(distinct)
+            "distinct_classes_all": len(distinct), "distinct_classes_trivial": len(distinct) - len(nontrivial),
+            "requests_by_type": kinds, "replies_by_errno": errnos, "calls_by_method": meths}, len(nontrivial)
+
+
+DISTINCT_RULE = ("distinct_nontrivial = number of distinct classes (request type, reply class ok|errno, ordered backend methods called, "
+                 "per-call error/panic flags) in which a backend call was made or the request was refused with an errno other than EBADF")
+
+
+def samples(hists, boundary=None):
+    """three representative observed steps: a boundary case (refused before any backend call, by default with an
+    errno other than EBADF), a typical success with at least one backend call, a fault (a backend call answered with
+    an error or a panic).  Each with the id of its history and its step number."""
+    if boundary is None:
+        boundary = lambda st: st["rt"] == 7 and not st["calls"] and st["errno"] != 9
+    want = {
+        "boundary": boundary,
+        "typical": lambda st: st["rt"] != 7 and len(st["calls"]) >= 1 and not any(c["ans"]["e"] or c["ans"]["p"] for c in st["calls"]),
+        "fault": lambda st: any(c["ans"]["e"] or c["ans"]["p"] for c in st["calls"]),
+    }
+    out = {}
+    for h in hists:
+        for i, st in enumerate(h["steps"]):
+            for k, pred in want.items():
+                if k not in out and pred(st):
+                    out[k] = {"history": h["id"], "step": i, "observed": st}
+        if len(out) == len(want):
+            break
+    return [dict(kind=k, **out[k]) if k in out else {"kind": k, "observed": None} for k in ("boundary", "typical", "fault")]
